@@ -30,7 +30,7 @@ def rand_case(rng, variant, max_cons=3, max_pkts=12, max_len=70, with_close=True
             k, c = sched[-1]
         sched.append([k, c])
     panic = [rng.randint(1, 4) if rng.random() < panic_p else 0 for _ in range(n)]
-    return [variant, n, maxq, gop, pkts, stop, sched, panic, flv]
+    return [variant, n, maxq, gop, pkts, stop, sched, panic, flv, rng.choice([1, 1, 2, 3])]
 
 def drain(n, rounds=6):
     """suffix that lets every thread run to completion (fair round robin)"""
